@@ -28,39 +28,42 @@ def run (toks : List String) (seps : List Nat) (b : Block) : List Diag := (nBloc
 /-! ### documented condition: "This ignores conditions that could have side effects, such as function calls" -/
 namespace Doc
 mutual
-/-- evaluating the expression performs a function call (function *bodies* are not evaluated) -/
-def callsE : Expr → Bool
-  | .bin _ l _ r => callsE l || callsE r
-  | .paren _ e => callsE e
-  | .un _ _ e => callsE e
+/-- evaluating the expression performs a function call (function *bodies* are not evaluated).
+    `idx = true` is the documented notion; `idx = false` does not look inside bracket indices. -/
+def calls (idx : Bool) : Expr → Bool
+  | .bin _ l _ r => calls idx l || calls idx r
+  | .paren _ e => calls idx e
+  | .un _ _ e => calls idx e
   | .call _ => true
-  | .tbl _ fs => callsFs fs
-  | .var v => callsV v
+  | .tbl _ fs => callsFs idx fs
+  | .var v => callsV idx v
   | .unsupported _ => true
   | .func _ _ _ | .num _ | .str _ _ _ | .nil _ | .true_ _ | .false_ _ | .dots _ => false
-def callsFs : FieldList → Bool
+def callsFs (idx : Bool) : FieldList → Bool
   | .nil => false
-  | .cons f rest => callsF f || callsFs rest
-def callsF : Field → Bool
-  | .exprKey _ k v => callsE k || callsE v
-  | .nameKey _ _ v => callsE v
-  | .noKey v => callsE v
+  | .cons f rest => callsF idx f || callsFs idx rest
+def callsF (idx : Bool) : Field → Bool
+  | .exprKey _ k v => calls idx k || calls idx v
+  | .nameKey _ _ v => calls idx v
+  | .noKey v => calls idx v
   | .unsupported _ => true
-def callsV : Var → Bool
+def callsV (idx : Bool) : Var → Bool
   | .name _ => false
-  | .expr _ p ss => callsP p || callsSs ss
-def callsP : Prefix → Bool
-  | .expr e => callsE e
+  | .expr _ p ss => callsP idx p || callsSs idx ss
+def callsP (idx : Bool) : Prefix → Bool
+  | .expr e => calls idx e
   | .name _ => false
-def callsSs : SuffixList → Bool
+def callsSs (idx : Bool) : SuffixList → Bool
   | .nil => false
-  | .cons s rest => callsS s || callsSs rest
-def callsS : Suffix → Bool
+  | .cons s rest => callsS idx s || callsSs idx rest
+def callsS (idx : Bool) : Suffix → Bool
   | .args _ _ | .meth _ _ _ => true
   | .dot _ _ => false
-  | .idx _ e => callsE e
+  | .idx _ e => idx && calls idx e
   | .unsupported _ => true
 end
+/-- the documented side-effect test -/
+def callsE (e : Expr) : Bool := calls true e
 end Doc
 
 end Selene.Lints.IfsSameCond
